@@ -90,6 +90,9 @@ Elements ==
       [] Fam = "mdegshell"  -> {<<"polygon", El(<< <<d, h>> >>)>> : d \in DegRings, h \in InnerSquares}          \* first ring without area, then rings with area
                                \cup {<<"polygon", El(<< <<d, h1, h2>> >>)>> : d \in DegRings, h1 \in InnerSquares, h2 \in {h \in InnerSquares : h[1] = <<1, 1>>}}
                                \cup {<<"multipolygon", El(<< <<s>>, <<d, h>> >>)>> : s \in {t \in Shells : t[1] = <<0, 0>>}, d \in DegRings, h \in {g \in InnerSquares : g[1] = <<1, 1>>}}
+                               \* more rings than coordinate values: three empty rings, then a ring of one or two vertices / a square
+                               \cup {<<"polygon", El(<< << <<>>, <<>>, <<>>, h >> >>)>> : h \in {<< <<2, 0>> >>, << <<0, 0>>, <<4, 2>> >>, << <<1, 1>>, <<3, 1>>, <<3, 3>>, <<1, 3>>, <<1, 1>> >>}}
+                               \cup {<<"multiline", El(<< << <<>>, <<>>, <<>>, <<>>, <<>>, h >> >>)>> : h \in {<< <<0, 0>>, <<4, 2>> >>, << <<0, 0>>, <<0, 4>>, <<4, 4>> >>}}
       [] Fam = "mmulti"     -> {<<"multipolygon", El(<< <<a>>, <<b>> >>)>> : a \in {r \in AnyRings : Len(r) = 4 /\ r[1] = <<0, 0>>}, b \in AnyRings}
                                \cup {<<"multipolygon", El(<<>>)>>, <<"multipolygon", El(<< <<>> >>)>>, <<"multipolygon", NULL>>}
       [] Fam = "mmulti2"    -> {<<"multipolygon", El(<< <<s, h>>, <<h2>> >>)>> : s \in Shells, h \in InnerSquares, h2 \in InnerSquares}
